@@ -31,6 +31,12 @@ macro_rules! harnesses {
                     _ => false,
                 }
             }
+            pub fn dispatch_random(name: &str, n: &mut crate::nondet::RandomNondet) -> bool {
+                match name {
+                    $( stringify!($name) => { ($body)(n); true } )*
+                    _ => false,
+                }
+            }
             pub fn names() -> Vec<&'static str> {
                 vec![ $( stringify!($name) ),* ]
             }
